@@ -30,7 +30,9 @@ REPO = core.REPO
 
 # ----------------------------------------------------------------------------------------------------------------
 # formulas: DNF = frozenset of conjunctions; conjunction = frozenset of literals
-#   literal = ('o', atom)            atom = ('sev', name) | ('sym', key) | ('inc',)
+#   literal = ('o', atom)            the option test is TRUE     atom = ('sev', name) | ('sym', key) | ('inc',)
+#           | ('n', atom)            the option test is FALSE (`!settings.severity.isEnabled(..)`): kept with its real polarity,
+#                                    a row that contains one is NOT monotone in the options (decided in Lean: Row.posOk)
 #           | ('l', key, pol)
 # ----------------------------------------------------------------------------------------------------------------
 TT = frozenset([frozenset()])
@@ -51,31 +53,38 @@ def _consistent(c):
     for l in c:
         if l[0] == 'l' and ('l', l[1], not l[2]) in c:
             return False
+        if l[0] == 'o' and ('n', l[1]) in c:
+            return False
     return True
 
 
+def _compl(l):
+    if l[0] == 'l':
+        return ('l', l[1], not l[2])
+    return ('n' if l[0] == 'o' else 'o', l[1])
+
+
 def _consensus(cs):
-    """{c + l, c + not l} -> {c}: keeps the join of the two branches of `if (b)` from fragmenting the path facts"""
+    """equivalence-preserving simplification: for a = A + l and b = B + not-l with B a subset of A, a can drop l
+    ((A and l) or (B and not l) = A or (B and not l)); with B = A this is {c + l, c + not l} -> {c}.  Keeps the join of the two
+    branches of `if (b)` / `if (isEnabled(x))` from fragmenting the path facts, and removes option tests that do not matter."""
     cs = set(cs)
     changed = True
     while changed and len(cs) > 1:
         changed = False
-        lst = sorted(cs, key=len)
-        for i, a in enumerate(lst):
-            for b in lst[i + 1:]:
-                if len(a) != len(b):
-                    continue
-                d = a ^ b
-                if len(d) == 2:
-                    x, y = tuple(d)
-                    if x[0] == 'l' and y[0] == 'l' and x[1] == y[1] and x[2] != y[2]:
-                        cs.discard(a)
-                        cs.discard(b)
-                        cs.add(a & b)
-                        changed = True
-                        break
+        for a in sorted(cs, key=lambda c: (len(c), sorted(map(str, c)))):
+            for l in a:
+                nl = _compl(l)
+                rest = a - {l}
+                if any(nl in b and (b - {nl}) <= rest for b in cs if b is not a):
+                    cs.discard(a)
+                    cs.add(rest)
+                    changed = True
+                    break
             if changed:
                 break
+        if changed:
+            cs = set(_absorb(cs))
     return cs
 
 
@@ -91,7 +100,7 @@ def f_or(*fs):
 
 def weaken(f):
     """keep only what cannot change during the run: option atoms and Settings flags (sound weakening)"""
-    return _absorb([frozenset(l for l in c if l[0] == 'o' or l[1].startswith("S.")) for c in f])
+    return _absorb([frozenset(l for l in c if l[0] in ('o', 'n') or l[1].startswith("S.")) for c in f])
 
 
 def f_and(*fs):
@@ -139,6 +148,10 @@ def promote(f):
 
 def atom(a):
     return frozenset([frozenset([('o', a)])])
+
+
+def natom(a):
+    return frozenset([frozenset([('n', a)])])
 
 
 def lit(key, pol=True):
@@ -592,13 +605,13 @@ class Analyzer:
         return [(TT, ('sym', self.uid(n, fr)))]
 
     def sev_enabled(self, leaves):
-        out = []
+        """(T, F) of `settings.severity.isEnabled(<severity expression>)` — both polarities are kept"""
+        t, f = [], []
         for p, l in leaves:
-            if l[0] == 'c':
-                out.append(f_and(p, atom(('sev', l[1]))))
-            else:
-                out.append(f_and(p, atom(('sym', l[1]))))
-        return f_or(*out)
+            a = ('sev', l[1]) if l[0] == 'c' else ('sym', l[1])
+            t.append(f_and(p, atom(a)))
+            f.append(f_and(p, natom(a)))
+        return (f_or(*t), f_or(*f))
 
     def value_lits(self, vexpr, fr, n):
         ok = self.objkey(vexpr, fr) if vexpr is not None else None
@@ -724,11 +737,12 @@ class Analyzer:
                 oty = obj.get("ty", "")
                 name = me.get("name")
                 if name == "isEnabled" and "SimpleEnableGroup<Severity>" in oty and self.settings_path(obj) == "severity" and len(args) == 1:
-                    return (self.sev_enabled(self.enum_abs(args[0], fr)), TT)
+                    return self.sev_enabled(self.enum_abs(args[0], fr))
                 if name == "isEnabled" and "SimpleEnableGroup<Certainty>" in oty and self.settings_path(obj) == "certainty" and len(args) == 1:
                     la = self.enum_abs(args[0], fr)
                     if all(l == ('c', 'inconclusive') for _, l in la):
-                        return (f_and(f_or(*[p for p, _ in la]), atom(('inc',))), TT)
+                        ps = f_or(*[p for p, _ in la])
+                        return (f_and(ps, atom(('inc',))), f_and(ps, natom(('inc',))))
                     return babs_lit(self.uid(n, fr))
                 if name == "isPremiumEnabled" and is_settings_type(oty) and len(args) == 1:
                     a = strip(args[0])
@@ -745,7 +759,8 @@ class Analyzer:
                         ic = self.bool_abs(args[1], fr)
                     t = f_and(f_or(f_and(cond[1], darg[1]), atom(('sev', 'warning'))),
                               f_or(f_and(ic[1], vinc[1]), atom(('inc',))))
-                    f = f_or(cond[0], darg[0], ic[0], vinc[0])
+                    f = f_or(f_and(natom(('sev', 'warning')), f_or(cond[0], darg[0])),
+                             f_and(natom(('inc',)), f_or(ic[0], vinc[0])))
                     return (t, f)
                 if is_pure_obj(oty) and not args:
                     ok = self.objkey(obj, fr)
